@@ -75,6 +75,7 @@ def hexdig_ok(v, vals):
 
 
 def run_item(item):
+    item.cross_check = True      # thorough tier: discharged obligations are re-decided by cvc5
     pm = load_repo()
     up = pm.decoder.uplink if hasattr(pm.decoder, "uplink") else __import__("pyModeS.decoder.uplink", fromlist=["x"])
     import pyModeS.decoder.uplink as up  # noqa
